@@ -586,3 +586,136 @@ Qed.
 Theorem a_inv_run : forall ops, a_inv (fst (a_run a_init ops)).
 Proof. intros. apply a_inv_run_from. exact a_inv_init. Qed.
 Print Assumptions a_inv_run.
+
+(* ------------------------------------------------------------------------------------------ *)
+(* 7. consequences                                                                              *)
+(* ------------------------------------------------------------------------------------------ *)
+
+(* C11 at reference level, for the whole API: once every handle the program obtained is gone, the process holds no reference
+   at all - whatever mixture of channels, regions, sets and servers was used, failing operations included *)
+Lemma ahandle_refs_nil : forall l, (forall h o, In (h, o) l -> aobj_refs o = []) -> ahandle_refs l = [].
+Proof.
+  induction l as [|[h o] t IH]; intros H; [reflexivity|]. rewrite ahandle_refs_cons.
+  rewrite (H h o) by (now left). cbn [app]. apply IH. intros h' o' Hin. apply (H h' o'). now right.
+Qed.
+
+Theorem api_quiescent : forall ops,
+  let s := fst (a_run a_init ops) in
+  (forall h o, In (h, o) (ah s) -> aobj_refs o = []) -> held (ak s) = [].
+Proof.
+  intros ops s Hgone. pose proof (a_inv_run ops) as [K _]. fold s in K.
+  pose proof (gv_held _ _ K) as P. rewrite (ahandle_refs_nil _ Hgone) in P. symmetry in P. now apply Permutation_nil in P.
+Qed.
+Print Assumptions api_quiescent.
+
+(* ... and while handles exist, the references held are exactly those backing them *)
+Theorem api_held_exact : forall ops,
+  let s := fst (a_run a_init ops) in Permutation (held (ak s)) (ahandle_refs (ah s)).
+Proof. intros ops s. exact (gv_held _ _ (av_k _ (a_inv_run ops))). Qed.
+Print Assumptions api_held_exact.
+
+(* a receiver handle, a set member or a server always denotes a live channel: receiving from it is defined *)
+Theorem api_receiver_live : forall ops h o c,
+  let s := fst (a_run a_init ops) in
+  lookup (ah s) h = Some o -> In (RR c) (aobj_refs o) ->
+  exists ch, nth_error (chans (ak s)) c = Some ch /\ dead ch = false.
+Proof.
+  intros ops h o c s Hl Hin. eapply kinvG_RR_live; [exact (av_k _ (a_inv_run ops))|].
+  eapply handle_in_refs; eauto.
+Qed.
+Print Assumptions api_receiver_live.
+
+(* ---- one member of a set being served (C06 at the level of the public API) ---- *)
+Inductive pev := PMsg (i : nat) (d : Z) (kinds : list akind) | PBad (i : nat) | PClosed (i : nat).
+Definition proj_ev (e : sev) : pev :=
+  match e with SMsg i d hs => PMsg i d (map fst hs) | SBad i => PBad i | SClosed i => PClosed i end.
+Definition msg_ev (i : nat) (m : msg) : pev :=
+  if undecodable m then PBad i else PMsg i (m_data m) (map akind_of (m_rights m)).
+
+Lemma a_install_kinds : forall rs hs n, map fst (snd (a_install hs n rs)) = map akind_of rs.
+Proof.
+  intros. rewrite a_install_shape. cbn [snd]. apply map_fst_combine. now rewrite map_length, seq_length.
+Qed.
+
+Lemma k_recv_queue : forall k c m k', k_wf k -> k_recv k c = KMsg m k' ->
+  q (get_chan k c) = m :: q (get_chan k' c) /\ (forall r, refs k' r = refs k r).
+Proof.
+  intros k c m k' W H. pose proof H as H2. apply k_recv_msg in H2. destruct H2 as (ch & rest & Hn & Hq & Hk').
+  assert (Hd : dead ch = false).
+  { destruct (dead ch) eqn:Hd; auto. destruct (W c ch Hn Hd) as [Hq0 _]. congruence. }
+  split.
+  - rewrite (get_chan_some _ _ _ Hn), Hq. f_equal.
+    assert (E : get_chan k' c = {| q := rest; dead := dead ch |}).
+    { apply get_chan_some. subst k'. cbn [chans]. apply nth_error_set_nth_eq. eapply nth_error_lt; eauto. }
+    rewrite E. reflexivity.
+  - intros r. eapply refs_recv_preserved; eauto.
+    + now rewrite (get_chan_some _ _ _ Hn).
+    + eapply nth_error_lt; eauto.
+Qed.
+
+(* every queued message is reported exactly once, in queue order (an undecodable one as such), and the closure is reported,
+   last, exactly when no reference to the sending end exists anywhere - held by the process or in flight in a live queue *)
+Theorem drain_events : forall fuel k hs n i c, k_wf k -> length (q (get_chan k c)) < fuel ->
+  match drain fuel k hs n i c with
+  | (_, _, _, evs, closed, _) =>
+      map proj_ev evs = map (msg_ev i) (q (get_chan k c)) ++ (if closed then [PClosed i] else []) /\
+      closed = (refs k (RS c) =? 0)
+  end.
+Proof.
+  induction fuel as [|f IH]; intros k hs n i c W Hlen; [lia|]. cbn [drain].
+  destruct (k_recv k c) as [m k'| |] eqn:Er.
+  - destruct (k_recv_queue _ _ _ _ W Er) as (Hq & Hrefs). pose proof (k_recv_wf _ _ _ _ W Er) as W'.
+    rewrite Hq in *. cbn [length] in Hlen. unfold msg_ev at 1. cbn [map].
+    destruct (undecodable m) eqn:Eu.
+    + specialize (IH k' hs n i c W' ltac:(lia)).
+      destruct (drain f k' hs n i c) as [[[[[k2 hs2] n2] evs] closed] later].
+      destruct IH as (E1 & E2). cbn [map proj_ev app]. rewrite E1, E2, Hrefs. auto.
+    + pose proof (a_install_kinds (m_rights m) hs n) as Hk.
+      destruct (a_install hs n (m_rights m)) as [[hs' n'] out]. cbn [snd] in Hk.
+      specialize (IH k' hs' n' i c W' ltac:(lia)).
+      destruct (drain f k' hs' n' i c) as [[[[[k2 hs2] n2] evs] closed] later].
+      destruct IH as (E1 & E2). cbn [map proj_ev app]. rewrite E1, E2, Hrefs, Hk. auto.
+  - unfold k_recv in Er. destruct (q (get_chan k c)) eqn:Eq; [|discriminate].
+    destruct (refs k (RS c) =? 0) eqn:E0; [discriminate|]. cbn [map app]. auto.
+  - unfold k_recv in Er. destruct (q (get_chan k c)) eqn:Eq; [|discriminate].
+    destruct (refs k (RS c) =? 0) eqn:E0; [|discriminate]. cbn [map proj_ev app]. auto.
+Qed.
+Print Assumptions drain_events.
+
+(* members keep their index (= the id `add` returned) for ever: serving the set never renumbers, adds never reuse *)
+Lemma select_all_length : forall ms k hs n i,
+  match select_all k hs n i ms with (_, _, _, _, ms2, _) => length ms2 = length ms end.
+Proof.
+  induction ms as [|[c|] r IH]; intros k hs n i; cbn [select_all]; auto.
+  - destruct (drain (S (length (q (get_chan k c)))) k hs n i c) as [[[[[k1 hs1] n1] ev1] closed] l1].
+    specialize (IH k1 hs1 n1 (S i)). destruct (select_all k1 hs1 n1 (S i) r) as [[[[[k2 hs2] n2] evs] ms2] l2].
+    cbn [length]. auto.
+  - specialize (IH k hs n (S i)). destruct (select_all k hs n (S i) r) as [[[[[k2 hs2] n2] evs] ms2] later].
+    cbn [length]. auto.
+Qed.
+
+Theorem add_returns_fresh_index : forall s sh rh ms c,
+  lookup (ah s) sh = Some (OSet ms) -> lookup (ah s) rh = Some (OR c) ->
+  snd (a_step s (ASetAdd sh rh)) = QAdded (length ms).
+Proof. intros s sh rh ms c H1 H2. cbn [a_step]. rewrite H1, H2. reflexivity. Qed.
+
+(* ---- one-shot server (C08 at the level of the public API) ---- *)
+Theorem accept_returns_first : forall s sh c m rest k', a_inv s ->
+  lookup (ah s) sh = Some (OSrv c true) -> k_recv (ak s) c = KMsg m k' -> undecodable m = false ->
+  q (get_chan (ak s) c) = m :: rest ->
+  exists hs, snd (a_step s (AAccept sh)) = QAccepted (anext s) (m_data m) hs /\ map fst hs = map akind_of (m_rights m) /\
+             lookup (ah (fst (a_step s (AAccept sh)))) (anext s) = Some (OR c).
+Proof.
+  intros s sh c m rest k' [_ [Hnd Hlt]] Hl Hr Hu Hq. cbn [a_step]. rewrite Hl, Hr, Hu.
+  pose proof (a_install_kinds (m_rights m) (update (ah s) sh OGone ++ [(anext s, OR c)]) (S (anext s))) as Hk.
+  pose proof (a_install_shape (m_rights m) (update (ah s) sh OGone ++ [(anext s, OR c)]) (S (anext s))) as Hs.
+  destruct (a_install (update (ah s) sh OGone ++ [(anext s, OR c)]) (S (anext s)) (m_rights m)) as [[hs' n'] out].
+  cbn [snd fst] in *. exists out. split; [reflexivity|]. split; [exact Hk|].
+  injection Hs as -> _ _. cbn [ah].
+  rewrite !lookup_app.
+  assert (E : lookup (update (ah s) sh OGone) (anext s) = None).
+  { apply lookup_not_in. rewrite map_fst_update. intros Hin. apply Forall_fst_map in Hlt.
+    rewrite Forall_forall in Hlt. specialize (Hlt _ Hin). lia. }
+  rewrite E. cbn [lookup]. now rewrite Nat.eqb_refl.
+Qed.
+Print Assumptions accept_returns_first.
